@@ -196,6 +196,7 @@ def cmd_stage2(d):
     """Survivors in the files behind the engines whose spaces are not part of the fingerprint corpus (C16's argument lists,
     C03's and C18's string sweeps): run those checks themselves against the mutant."""
     repo = os.path.join(d, "repo")
+    sh(["rsync", "-a", "--delete", "--exclude", "target", "--exclude", ".git", "/repo/", repo + "/"])
     src = os.path.join(repo, "impl", "src")
     rs = [json.loads(l) for l in open(os.path.join(d, "results.jsonl"))]
     surv = [r for r in rs if r["status"] == "survived"]
@@ -213,7 +214,11 @@ def cmd_stage2(d):
             key = (r["file"], r["line"], r["op"], r["k"])
             if key in done or r["file"] not in plan or "unreachable!" in r["old"]:
                 continue
-            m = next(x for x in mutants("/repo", r["file"]) if (x["file"], x["line"], x["op"], x["k"]) == key)
+            # /repo may have moved on since the survivor was recorded: match by text, not by line number
+            m = next((x for x in mutants(repo, r["file"]) if (x["file"], x["op"], x["k"], x["old"]) == (r["file"], r["op"], r["k"], r["old"])), None)
+            if m is None:
+                print("GONE     %s:%d [%s] (the line no longer exists)" % (r["file"], r["line"], r["op"]), flush=True)
+                continue
             path = os.path.join(src, r["file"])
             orig = open(path).read()
             lines = orig.split("\n")
